@@ -31,13 +31,13 @@ Ev     == T.events
 TS     == SeqSet(T.tasks)
 PS     == SeqSet(T.pilots)
 
-KK(dE, dR, dF, dC) == [policy |-> T.policy,
+KK(dE, dR, dF, dC, dH) == [policy |-> T.policy,
                named  |-> [t \in TS |-> T.named[t]],
                cores  |-> [t \in TS |-> T.cores[t]],
                hwm    |-> [p \in PS |-> T.hwm[p]],
                lo |-> T.lo, hi |-> T.hi, devEarly |-> dE, devRaise |-> dR,
-               devAddFresh |-> dF, devCtrRaise |-> dC]
-K == KK(FALSE, FALSE, FALSE, FALSE)
+               devAddFresh |-> dF, devCtrRaise |-> dC, devHalfValid |-> dH]
+K == KK(FALSE, FALSE, FALSE, FALSE, FALSE)
 
 ToCs(st) == [role  |-> [p \in PS |-> st.role[p]],
              pst   |-> [p \in PS |-> st.pst[p]],
@@ -65,8 +65,8 @@ Init ==
   /\ errs = {} /\ fin = FALSE
 
 \* what the design model expects of this callback, for one setting of the deviations
-Expect(e, dE, dR, dF, dC) ==
-  LET k == KK(dE, dR, dF, dC) IN
+Expect(e, dE, dR, dF, dC, dH) ==
+  LET k == KK(dE, dR, dF, dC, dH) IN
   CASE e.ev = "Submit"       -> StepSubmit(k, cs, e.batch)
     [] e.ev = "AddPilots"    -> StepAdd(k, cs, e.add)
     [] e.ev = "RemovePilots" -> StepRemove(k, cs, e.pids)
@@ -82,19 +82,21 @@ Step ==
          lex   == e.raised # "none"
          known == e.ev \in {"Submit", "AddPilots", "RemovePilots", "PilotState", "TaskStates", "Noise"}
          B     == IF e.ev \in {"Submit", "TaskStates"} THEN SeqSet(e.batch) ELSE {}
-         P     == IF e.ev = "AddPilots" THEN SeqSet(AddPids(e.add)) ELSE {}
+         \* commands may name pilots they cannot be applied to (an added pilot in an add,
+         \* a pilot which is not added in a remove): P / R are the entries which can be
+         \* applied, judged on the role as commanded so far
+         P     == IF e.ev = "AddPilots" THEN {p \in SeqSet(AddPids(e.add)) : grole[p] # "added"} ELSE {}
+         R     == IF e.ev = "RemovePilots" THEN {p \in SeqSet(e.pids) : grole[p] = "added"} ELSE {}
          \* the driver respects the task manager's guards
          input == CASE e.ev = "Submit"       -> \A t \in B : tst[t] = "new"
-                    [] e.ev = "AddPilots"    -> \A p \in P : grole[p] # "added"
-                    [] e.ev = "RemovePilots" -> \A p \in SeqSet(e.pids) : grole[p] = "added"
                     [] e.ev = "TaskStates"   -> \A t \in B : tst[t] = "fwd"
                     [] OTHER                 -> TRUE
-         model == \E dE \in BOOLEAN, dR \in BOOLEAN, dF \in BOOLEAN, dC \in BOOLEAN :
-                          LET x == Expect(e, dE, dR, dF, dC)
+         model == \E dE \in BOOLEAN, dR \in BOOLEAN, dF \in BOOLEAN, dC \in BOOLEAN, dH \in BOOLEAN :
+                          LET x == Expect(e, dE, dR, dF, dC, dH)
                           IN  x.cs = lcs /\ x.fwd = lfwd /\ x.ex = lex
          \* ---- role as commanded, furthest state ever notified or added --------
          role2 == [p \in PS |-> IF p \in P THEN "added"
-                                ELSE IF e.ev = "RemovePilots" /\ p \in SeqSet(e.pids) THEN "removed"
+                                ELSE IF p \in R THEN "removed"
                                 ELSE grole[p]]
          st2   == [p \in PS |-> IF p \in P THEN Furthest(gst[p], AddState(e.add, p))
                                 ELSE IF e.ev = "PilotState" /\ p = e.p THEN Furthest(gst[p], e.s)
